@@ -138,6 +138,10 @@ def check_config(ctx, spec, rsel, label):
     # ---- sufficiency ----
     entry_choices = list(entry.items()) or [(None, [])]
     base = {r: f"run:{r}" for r in req}
+    groups = entry_groups(g, entry)
+    if len(groups) > 1:
+        # several INDEPENDENT cycles: "one listed entry point" is one per cycle (each cycle needs its own seed)
+        return check_multi_cycle(ctx, built, spec, case, label, req, base, entry, groups, kw)
     for ename, eps in entry_choices:
         provided = dict(base)
         for p in eps:
@@ -225,6 +229,69 @@ def check_config(ctx, spec, rsel, label):
     return bool(req or entry)
 
 
+def entry_groups(g, entry):
+    """Listed entry points grouped by the data cycle they belong to: strongly connected components of the graph's
+    DATA edges only (computed here, from the edge list, independently of the library's own grouping)."""
+    import networkx as nx
+
+    if len(entry) < 2:
+        return [sorted(entry)] if entry else []
+    dg = nx.DiGraph()
+    dg.add_nodes_from(g.nx_graph.nodes)
+    for u, v, d in g.nx_graph.edges(data=True):
+        if d.get("edge_type") == "data":
+            dg.add_edge(u, v)
+    groups = []
+    for scc in nx.strongly_connected_components(dg):
+        names = sorted(n for n in scc if n in entry)
+        if names:
+            groups.append(names)
+    return sorted(groups)
+
+
+def check_multi_cycle(ctx, built, spec, case, label, req, base, entry, groups, kw):
+    import itertools
+
+    from hypergraph import MissingInputError
+
+    Rec, _ = rt.make_processors()
+    seed = (lambda p: 0) if spec.get("int_inputs") else (lambda p: f"run:{p}")
+    ctx.obs["multi_cycle_configs"] += 1
+    for combo in itertools.islice(itertools.product(*groups), 6):
+        provided = dict(base)
+        for e in combo:
+            for p in entry[e]:
+                provided[p] = seed(p)
+        for runner in ("sync", "async"):
+            o = core.execute(built, provided, runner, processors=[Rec("p")], max_iterations=200, **kw)
+            ctx.obs["sufficiency_runs"] += 1
+            err = o.exc if o.exc is not None else o.error
+            c2 = {**case, "provided": provided, "runner": runner, "entry_points": list(combo)}
+            if isinstance(err, MissingInputError):
+                ctx.violation("C08:sufficient-rejected:multi-cycle", f"{runner}: one listed entry point per cycle supplied ({list(combo)} -> {sorted(provided)}), yet rejected: {str(err)[:200]}", c2)
+            elif err is not None and spec.get("int_inputs"):
+                ctx.violation("C08:sufficient-failed:" + type(err).__name__, f"{runner}: one entry point per cycle supplied ({list(combo)}), run failed with {err!r}", c2)
+    # necessity: a cycle left without any complete entry point
+    for gi, grp in enumerate(groups):
+        own = {p for e in grp for p in entry[e]}
+        provided = dict(base)
+        for gj, other in enumerate(groups):
+            if gj != gi:
+                for p in entry[other[0]]:
+                    if p not in own:
+                        provided[p] = seed(p)
+        for runner in ("sync", "async"):
+            o = core.execute(built, provided, runner, processors=[Rec("p")], max_iterations=20, **kw)
+            ctx.obs["omission_runs"] += 1
+            activity = [e[0] for e in o.rec.ev if e[0] in ("enter", "ev", "shutdown")]
+            c2 = {**case, "provided": provided, "runner": runner, "cycle_without_seed": grp}
+            if not isinstance(o.exc, MissingInputError):
+                ctx.violation("C08:omission-accepted:cycle-without-seed", f"{runner}: the cycle entered through {grp} got none of its seeds {sorted(own)} (provided {sorted(provided)}), expected MissingInputError, got status {o.status} ({o.exc!r}); activity={activity[:5]}", c2)
+            elif activity:
+                ctx.violation("C08:activity-before-rejection", f"{runner}: rejected for a missing cycle seed only after {activity[:6]}", c2)
+    return True
+
+
 def bound_output_mechanism(spec, omitted=None):
     """Classifier for the known finding: a name that a node of the graph PRODUCES is also bound (on the graph, or
     inside a nested graph under the wrapper's external name). The binding counts as a provided value, the producer
@@ -280,6 +347,15 @@ def directed_cases():
     cons = {"k": "fn", "name": "f", "params": [{"n": "x"}], "outs": ["y"]}
     out.append(("directed:bound-output-name:graph-level", {"name": "outer", "nodes": [copy.deepcopy(prod), copy.deepcopy(cons)], "bind": {"x": "bound:X"}}, None))
     out.append(("directed:bound-output-name:inside-nested-graph", {"name": "outer", "nodes": [copy.deepcopy(prod), {"k": "sub", "name": "inner", "prog": {"name": "inner", "nodes": [copy.deepcopy(cons)], "bind": {"x": "bound:X"}}}], "bind": {}}, None))
+    # two INDEPENDENT data cycles (two self-loop accumulators) tied together only by a gate that reads one and routes
+    # into the other: each cycle needs its own seed; one listed entry point's parameters are enough
+    two = [
+        {"k": "fn", "name": "inc", "params": [{"n": "count"}], "outs": ["count"], "beh": ["inc", "count"]},
+        {"k": "fn", "name": "acc", "params": [{"n": "total"}, {"n": "count"}], "outs": ["total"], "beh": ["sum", "total", "count"]},
+        {"k": "route", "name": "gate", "params": [{"n": "total"}], "targets": ["inc", "END"], "cond": ["ge", "total", 6], "then": "END", "else": "inc"},
+    ]
+    out.append(("directed:two-data-cycles-coupled-by-a-gate", {"name": "twocyc", "nodes": two, "bind": {}, "int_inputs": True}, None))
+    out.append(("directed:two-data-cycles-coupled-by-a-gate:reordered", {"name": "twocyc", "nodes": [copy.deepcopy(two[2]), copy.deepcopy(two[1]), copy.deepcopy(two[0])], "bind": {}, "int_inputs": True}, None))
     return out
 
 
